@@ -36,6 +36,8 @@ func countNodes(e influxql.Expr) (nodes, timeLeaves int) {
 
 type c18win struct{ s, e int64 }
 
+var c18NY, _ = time.LoadLocation("America/New_York")
+
 func c18Windows(rg *mon.Rng) []c18win {
 	n := rg.Range(1, 8)
 	base := int64(946684800000000000) + int64(rg.Intn(100000))*1000000000
@@ -125,7 +127,41 @@ func c18One(c *Ctx, idx int, local map[string]int64) {
 	pts := tcPoints(leaves, extra)
 	for k, w := range wins {
 		var serr error
-		if p, pv, stk := mon.Try(func() { serr = sel.SetTimeRange(time.Unix(0, w.s).UTC(), time.Unix(0, w.e).UTC()) }); p {
+		// the window's instants, carried by time values in any location (also
+		// ones whose offset has seconds, as local mean time has)
+		wloc := []*time.Location{time.UTC, time.UTC, time.FixedZone("LMT", -(4*3600 + 56*60 + 2)), time.FixedZone("", 44*60 + 30), c18NY, time.FixedZone("XST", 5*3600 + 1800)}[(idx+k)%6]
+		if k > 0 && rg.P(0.25) {
+			// between two windows the caller edits a predicate in place; the next
+			// window must be applied to the statement as it is now, as it would be
+			// to the same statement printed and parsed afresh
+			edited := false
+			influxql.WalkFunc(sel.Condition, func(n influxql.Node) {
+				if b, ok := n.(*influxql.BinaryExpr); ok && !edited {
+					if sl, ok := b.RHS.(*influxql.StringLiteral); ok && (b.Op == influxql.EQ || b.Op == influxql.NEQ) {
+						if vr, ok := b.LHS.(*influxql.VarRef); ok && !strings.EqualFold(vr.Val, "time") {
+							sl.Val += "_edited"
+							edited = true
+						}
+					}
+				}
+			})
+			if edited {
+				if re, perr := influxql.ParseStatement(sel.String()); perr == nil {
+					fresh := re.(*influxql.SelectStatement)
+					e1 := sel.SetTimeRange(time.Unix(0, w.s).In(wloc), time.Unix(0, w.e).In(wloc))
+					e2 := fresh.SetTimeRange(time.Unix(0, w.s).In(wloc), time.Unix(0, w.e).In(wloc))
+					if fmt.Sprint(e1) != fmt.Sprint(e2) || dumpOf(sel.Condition) != dumpOf(fresh.Condition) {
+						r.Violation("edit-between-windows-lost", det(fmt.Sprintf("after an in-place edit of a predicate, call %d leaves the condition %s; the same statement printed and parsed afresh gets %s", k+1, sel.Condition, fresh.Condition), k+1))
+						return
+					}
+					local["edited-between-windows"]++
+				}
+				// the reference model no longer describes the edited predicate
+				local["calls"]++
+				return
+			}
+		}
+		if p, pv, stk := mon.Try(func() { serr = sel.SetTimeRange(time.Unix(0, w.s).In(wloc), time.Unix(0, w.e).In(wloc)) }); p {
 			d := det(fmt.Sprint(pv), k+1)
 			d["stack"] = stk
 			r.Violation("panic", d)
@@ -215,7 +251,7 @@ func c18One(c *Ctx, idx int, local map[string]int64) {
 
 func checkC18(c *Ctx) (string, bool, []string) {
 	r := c.R
-	rule := "initial conditions: none, conjunctions of 0-3 time bounds (time on either side, any letter case, quoted, with a ::type cast, integer / RFC3339 / date / date-time / duration / now()-relative) with 0-3 other sub-trees (AND, OR, parentheses), or a top-level OR of non-time predicates; sequences of 1-8 windows (ascending continuous-query style incl. 1ns and 250ms buckets, random, repeated, empty and sub-second, at the representable extremes). A third of the statements carry a TZ clause and are observed alternately without a valuer and with a valuer reporting the statement zone. After every SetTimeRange the statement is observed through ConditionExpr: exact range, exactly two time comparisons, constant node count from the first call on, and agreement with (start <= t < end) AND non-time-part on every probe point. Non-trivial = history of at least one call; distinct by (statement, windows)."
+	rule := "initial conditions: none, conjunctions of 0-3 time bounds (time on either side, any letter case, quoted, with a ::type cast, integer / RFC3339 / date / date-time / duration / now()-relative) with 0-3 other sub-trees (AND, OR, parentheses), or a top-level OR of non-time predicates; sequences of 1-8 windows (passed as time values in UTC, named zones and zones whose offset has seconds; ascending continuous-query style incl. 1ns and 250ms buckets, random, repeated, empty and sub-second, at the representable extremes). A third of the statements carry a TZ clause and are observed alternately without a valuer and with a valuer reporting the statement zone. After every SetTimeRange the statement is observed through ConditionExpr: exact range, exactly two time comparisons, constant node count from the first call on, and agreement with (start <= t < end) AND non-time-part on every probe point. Non-trivial = history of at least one call; distinct by (statement, windows)."
 	assume := []string{"observation through ConditionExpr as the property prescribes", "calls other than now() do not occur in the generated conditions (SetTimeRange replaces every call by true)"}
 	if c.Replay != nil {
 		c18One(c, replayInt(c, "idx"), map[string]int64{})
